@@ -36,6 +36,12 @@ Proof.
   - apply IHb.
 Qed.
 
+Lemma firstn_app_exact {A} (l1 l2 : list A) n : length l1 = n -> firstn n (l1 ++ l2) = l1.
+Proof. intros <-. rewrite firstn_app, Nat.sub_diag, firstn_O, app_nil_r. apply firstn_all. Qed.
+
+Lemma skipn_app_exact {A} (l1 l2 : list A) n : length l1 = n -> skipn n (l1 ++ l2) = l2.
+Proof. intros <-. rewrite skipn_app, skipn_all, Nat.sub_diag, skipn_O. reflexivity. Qed.
+
 Lemma Forall_firstn_ {A} (P : A -> Prop) : forall k l, Forall P l -> Forall P (firstn k l).
 Proof.
   induction k; intros l H; [constructor|].
